@@ -27,8 +27,8 @@ type ratEnv struct {
 	leaves map[string]*big.Rat // by Sym.String()
 	salt   int
 	// leafOf lets a rule bind leaves by pattern (returns "" to fall through to leaves/hash).
-	leafOf func(s *Sym) string
-	named  map[string]*big.Rat
+	leafOf  func(s *Sym) string
+	named   map[string]*big.Rat
 	unknown []string
 }
 
